@@ -198,54 +198,7 @@ func rulesC02(c *Ctx) {
 		c.Check(!dr.Empty() && hit == nil, "C02.mutate", fname(fn)+":success⇒doRemove✓∨already-removed", c.P.Pos(fn.Pos()), "a removal either performs the structural update or the key is already removed in this batch (pending value == nil)", "RemoveExisting can succeed without the structural update on a path other than 'pending entry has a nil value'")
 	}
 	// removal marker is nil, not empty
-	{
-		isEntryValue := func(v ssa.Value) bool {
-			if u, ok := v.(*ssa.UnOp); ok {
-				v = u.X
-			}
-			switch x := v.(type) {
-			case *ssa.FieldAddr:
-				k := fieldKey(x.X.Type(), x.Field)
-				return k == "storage/mkvs/writelog.LogEntry.Value" || k == "storage/mkvs.pendingEntry.value"
-			case *ssa.Field:
-				k := fieldKey(x.X.Type(), x.Field)
-				return k == "storage/mkvs/writelog.LogEntry.Value" || k == "storage/mkvs.pendingEntry.value"
-			}
-			return false
-		}
-		bad, n := 0, 0
-		for _, fn := range c.P.ModFuncs {
-			if fn.Blocks == nil || !strings.HasPrefix(short(fpkgPath(fn)), "storage/") {
-				continue
-			}
-			for _, b := range fn.Blocks {
-				for _, in := range b.Instrs {
-					bo, ok := in.(*ssa.BinOp)
-					if !ok {
-						continue
-					}
-					if _, cmp := negOp[bo.Op]; !cmp {
-						continue
-					}
-					for _, pair := range [][2]ssa.Value{{bo.X, bo.Y}, {bo.Y, bo.X}} {
-						if isEntryValue(pair[0]) && isNilConst(pair[1]) {
-							n++
-						}
-						if call, ok := pair[0].(*ssa.Call); ok && calleeNameCommon(&call.Call) == "builtin.len" && isEntryValue(call.Call.Args[0]) {
-							if k, isK := constInt(pair[1]); isK && k <= 1 {
-								bad++
-								c.Fail("C02.mutate", fname(fn)+":removal-marker-is-nil", c.P.InstrPos(in), "a write-log/pending entry is classified by the length of its value instead of value==nil: an insert of an empty value would be treated as a removal (replaying the log yields a different root)")
-							}
-						}
-					}
-				}
-			}
-		}
-		if bad == 0 {
-			c.OK("C02.mutate", "writelog:removal-marker-is-nil", "", itoa(n)+" classifications of log/pending entries, all by nil-ness")
-		}
-		c.Floor("C02.mutate", n, 3, "nil-classifications of write-log/pending entries")
-	}
+	nilMarkerRule(c, "C02.mutate")
 	// pending state cleared only after the durable commit
 	if fn := c.needFn("C02.mutate", "storage/mkvs.(*tree).commitWithHooks"); fn != nil {
 		bc := CallsTo(fn, "batch.Commit", "storage/mkvs/db/api.(Batch).Commit", "")
@@ -283,4 +236,55 @@ func dirtyRollbackRule(c *Ctx, rule string) {
 			c.Check(len(rb) > 0 && hit == nil, rule, n+":SetDirty⇒rollbackNode@"+vstrShort(p), c.P.InstrPos(call), "a pointer marked dirty is withdrawn from the eviction list", "a pointer is marked dirty but not withdrawn from the eviction list: it can later be evicted while dirty (lost update / panic on eviction)")
 		}
 	}
+}
+
+// nilMarkerRule: a write-log / pending entry is a removal iff its value is nil; classifying by length turns an insert
+// of the empty value into a removal (shared by C02 and C13: replaying a served write log must reproduce the root).
+func nilMarkerRule(c *Ctx, rule string) {
+		isEntryValue := func(v ssa.Value) bool {
+			if u, ok := v.(*ssa.UnOp); ok {
+				v = u.X
+			}
+			switch x := v.(type) {
+			case *ssa.FieldAddr:
+				k := fieldKey(x.X.Type(), x.Field)
+				return k == "storage/mkvs/writelog.LogEntry.Value" || k == "storage/mkvs.pendingEntry.value"
+			case *ssa.Field:
+				k := fieldKey(x.X.Type(), x.Field)
+				return k == "storage/mkvs/writelog.LogEntry.Value" || k == "storage/mkvs.pendingEntry.value"
+			}
+			return false
+		}
+		bad, n := 0, 0
+		for _, fn := range c.P.ModFuncs {
+			if fn.Blocks == nil || !strings.HasPrefix(short(fpkgPath(fn)), "storage/") {
+				continue
+			}
+			for _, b := range fn.Blocks {
+				for _, in := range b.Instrs {
+					bo, ok := in.(*ssa.BinOp)
+					if !ok {
+						continue
+					}
+					if _, cmp := negOp[bo.Op]; !cmp {
+						continue
+					}
+					for _, pair := range [][2]ssa.Value{{bo.X, bo.Y}, {bo.Y, bo.X}} {
+						if isEntryValue(pair[0]) && isNilConst(pair[1]) {
+							n++
+						}
+						if call, ok := pair[0].(*ssa.Call); ok && calleeNameCommon(&call.Call) == "builtin.len" && isEntryValue(call.Call.Args[0]) {
+							if k, isK := constInt(pair[1]); isK && k <= 1 {
+								bad++
+								c.Fail(rule, fname(fn)+":removal-marker-is-nil", c.P.InstrPos(in), "a write-log/pending entry is classified by the length of its value instead of value==nil: an insert of an empty value would be treated as a removal (replaying the log yields a different root)")
+							}
+						}
+					}
+				}
+			}
+		}
+		if bad == 0 {
+			c.OK(rule, "writelog:removal-marker-is-nil", "", itoa(n)+" classifications of log/pending entries, all by nil-ness")
+		}
+		c.Floor(rule, n, 3, "nil-classifications of write-log/pending entries")
 }
